@@ -22,6 +22,7 @@
 //	s<ms>         time.Sleep on the service        t<ms>c<c>x<n> timer after ms: n pushes to c
 //	w<c>x<n>      worker goroutine: n posted pushes W<c>x<n>     the same, the last post completes the request
 //	n<ms>         (back-end) make the front sleep ms inside its mailbox run
+//	z / Z         noise: push to an unknown session id / to an unknown front-end (no observable effect)
 //
 // observation (everything since the previous op; "-" when empty):
 //
@@ -224,6 +225,12 @@ func interpret(ns *service.NodeService, svc int, script string, reqClient int, c
 					posted(ns, svc, thr, reqClient, "r", cb)
 				}
 			}()
+		case 'z':
+			// noise: a push to a session id nobody has — dropped by the front, must not disturb anything
+			app.PushMessageById(ns, "gate-1", 0xFFFFF0, "t", &Tag{S: svc, C: -1, K: "p"})
+		case 'Z':
+			// noise: a push to a front-end that does not exist — refused on the issuing side
+			app.PushMessageById(ns, "gate-9", 1, "t", &Tag{S: svc, C: -1, K: "p"})
 		case 'n':
 			if svc != 0 {
 				if n := node.Current(); n != nil {
@@ -454,6 +461,21 @@ func (w *world) exec(op string) string {
 }
 
 var yieldCtr atomic.Uint32
+var pauses atomic.Int64
+
+// reach: what the load actually did to the machinery (reported in the generator histogram)
+func (w *world) reach(h *hx.T) {
+	for _, s := range svcNames {
+		if ns := w.n.Service(s); ns != nil {
+			if len(ns.GetRunService().GetScheduler().GetChanTask()) >= 999 {
+				h.Count("reach:task-queue-full:" + s)
+			}
+		}
+	}
+	if p := pauses.Swap(0); p > 0 {
+		h.Stats["reach:mailbox-smoothing-pauses"] += int(p)
+	}
+}
 
 func TestRun(t *testing.T) {
 	synctest.Test(t, func(t *testing.T) {
@@ -464,7 +486,10 @@ func TestRun(t *testing.T) {
 		node.RouteBySessionKey("chat", "chatid")
 		// perturb the interleaving at the mailbox's yield points (hook H1): every few
 		// atomic steps the goroutine gives up its processor
-		mailbox.VerifYield = func(string) {
+		mailbox.VerifYield = func(point string) {
+			if point == "bp.cas" {
+				pauses.Add(1) // a mailbox run exceeded its frame budget: smoothing pause
+			}
 			if yieldCtr.Add(1)%5 == 0 {
 				runtime.Gosched()
 			}
@@ -474,6 +499,10 @@ func TestRun(t *testing.T) {
 		w := &world{n: n}
 		run := func(op string) {
 			obs := hx.Guard(func() string { return w.exec(op) })
+			w.reach(h)
+			if n := strings.Count(obs, ","); n >= 1000 {
+				h.Count("reach:op-with-1000+-records")
+			}
 			h.Emit(op, obs)
 		}
 		if ops := hx.ReplayOps(); ops != nil {
@@ -487,6 +516,9 @@ func TestRun(t *testing.T) {
 			run(op)
 		}
 		g := &gen{h: h}
+		for _, op := range g.sweep() {
+			run(op)
+		}
 		budget := hx.EnvInt("VERIF_N", 400)
 		for h.N < budget {
 			for _, op := range g.genCase() {
